@@ -377,3 +377,8 @@ def helper_of(model, ck, kind):
             if ck.flow.term(aexpr, ev["node"]) == ck.mapping:
                 mapping_param = pname
     return fi, ev["param"], mapping_param
+
+
+def verdict_rule(run, model, rule, fi, list_param, mapping_param, depth):
+    """Same as analyse_verdict with the (run, model, ...) calling convention of Run.do."""
+    return analyse_verdict(run, rule, model, fi, list_param, mapping_param, depth)
